@@ -219,6 +219,11 @@ def diff_lists(a, b, path="", config=None, shallow_diff=None):
     return di.validated()
 
 
+def diff_ignore(*args, **kwargs):
+    """Always returns an empty diff"""
+    return []
+
+
 def diff_dicts(a, b, path="", config=None):
     """Compute diff of two dicts with configurable behaviour.
 
@@ -242,7 +247,9 @@ def diff_dicts(a, b, path="", config=None):
 
     # Sorting keys in loops to get a deterministic diff result
     for key in sorted(akeys - bkeys):
-        di.remove(key)
+        # An ignored entry stays ignored when the key itself comes or goes
+        if config.differs["/".join((path, key))] is not diff_ignore:
+            di.remove(key)
 
     # Handle values for keys in both a and b
     for key in sorted(akeys & bkeys):
@@ -265,6 +272,7 @@ def diff_dicts(a, b, path="", config=None):
                 di.replace(key, bvalue)
 
     for key in sorted(bkeys - akeys):
-        di.add(key, b[key])
+        if config.differs["/".join((path, key))] is not diff_ignore:
+            di.add(key, b[key])
 
     return di.validated()
